@@ -483,6 +483,9 @@ where
 				let stream = BufReader::new(BufWriter::new(io.compat()));
 				let mut ws_builder = server.into_builder(stream);
 				ws_builder.set_max_message_size(server_cfg.max_request_body_size as usize);
+				// The message size is the only limit: a frame is never refused for its size alone, which
+				// would end the connection instead of rejecting the message.
+				ws_builder.set_max_frame_size(usize::MAX);
 				let (sender, receiver) = ws_builder.finish();
 
 				let params = BackgroundTaskParams {
